@@ -369,6 +369,10 @@ impl Sim {
     pub fn cur_task(&self) -> TaskId {
         self.lock().cur_task
     }
+    /// Number of parked backend calls not yet granted.
+    pub fn pending_count(&self) -> usize {
+        self.lock().pending.iter().filter(|p| p.verdict.is_none()).count()
+    }
     pub fn mut_log_len(&self) -> usize {
         self.lock().mut_log.len()
     }
